@@ -89,13 +89,19 @@ def min_delta(delta):
     """
     delta = _as_double(delta)
 
+    def rise(top, bottom):
+        # inf - inf (an infinite plateau measured against its own level) is
+        # nan, which fails every comparison: it is no rise at all
+        difference = top - bottom
+        return 0 if difference != difference else difference
+
     def result(structure, index=None, value=None):
         if value is None:
             if structure.parent is not None:
-                return (structure.height - structure.parent.height) >= delta
+                return rise(structure.height, structure.parent.height) >= delta
 
-            return (structure.vmax - structure.vmin) >= delta
-        return (structure.vmax - value) >= delta
+            return rise(structure.vmax, structure.vmin) >= delta
+        return rise(structure.vmax, value) >= delta
     return result
 
 
